@@ -4,10 +4,10 @@ import asyncio
 
 import bellows.ezsp.protocol as protocol
 import bellows.types as t
-from bellows.exception import InvalidCommandError
+from bellows.exception import EzspError, InvalidCommandError
 
 from pyvc.calls import ExtMethod
-from pyvc.contracts import ClassSpec, T, contract
+from pyvc.contracts import REGISTRY, ClassSpec, T, contract
 from pyvc.ext import effect, ext_class, field
 from pyvc.spec import SpecFn
 
@@ -178,7 +178,7 @@ def callbacks_delivered(fx):
     return [r for r in fx if r[0] == "cb_handler.__call__"]
 
 
-@contract("bellows.ezsp.protocol.ProtocolHandler.__call__", props=["C06", "C08"])
+@contract("bellows.ezsp.protocol.ProtocolHandler.__call__", props=["C06", "C08", "C19"])
 def _(c):
     c.self(PH)
     c.arg("data", T.bytes)
@@ -229,6 +229,14 @@ def _(c):
         ),
         on="any",
     )
+    # C19 "failed by timeout or EZSP error": whatever failure the receive path reports to a waiting command is an
+    # EzspError -- the failure kind the watchdog (and every other caller) counts; a reply-borne failure of any other
+    # class would pass through their handlers uncounted
+    c.ensures(
+        "post.command_failures_are_ezsp_errors",
+        lambda fx: all(isinstance(r[2], EzspError) for r in exceptions_set(fx)),
+        on="any",
+    )
     # "frames that answer no pending call are delivered to the registered callbacks exactly once";
     # "no callback is invoked unless the frame decodes fully as a known frame of the active version"
     c.ensures(
@@ -256,6 +264,11 @@ def _(c):
     )
     # "Commands issued afterwards still complete normally": nothing a later command depends on changes
     c.modifies("self._awaiting")
+
+
+REGISTRY.contracts["bellows.ezsp.protocol.ProtocolHandler.__call__"].restrict(
+    "C19", obligations=lambda name: "command_failures_are_ezsp_errors" in name or "::exc." in name
+)
 
 
 def frame_id_of(fx):
